@@ -1440,7 +1440,7 @@ reg("C13", ["tp", "tpmulti", "pooled"], "mtbl/threadpool.c compiled unmodified i
      "pooled writer = sequential writer for every interleaving of adds and in-order deliveries (C13_writer), pooled sorter output for every completion order of the chunk jobs (C13_sorter): the two theorems take from the machine that results are delivered in dispatch order / each exactly once / all before the join (C13_order, C13_complete) and from C14 that caller and handler touch disjoint fields",
      "termination is proved through a progress measure for every schedule with finitely many spurious wake-ups (C13_progress, C13_steps_bounded, C13_no_hang, C13_can_finish); that the OS keeps scheduling some runnable thread is assumed",
      "thread creation does not fail",
-     "several clients on one pool: the k-client machine MtblModel/TpK.lean (owner, any number of clients each with caller and result handler, shared workers) runs in lockstep with threadpool.c under the deterministic scheduler (tpmulti family: pool, every worker's mailbox, every client's queue / counter / flag / deliveries, enabled and sleeping sets compared after every turn; 1-4 clients); proved for every number of clients: the bound (C13_kclient_bound), exclusive hand-out (C13_kclient_exclusive, _one_holder, _held, _idle), the hand-over protocol (C13_kclient_protocol), per-client delivery in dispatch order, exactly once and complete (C13_kclient_order, _complete, _line; unordered: _unordered_once, _unordered_complete, _unordered_places), no lost wake-up with several sleepers on pool->c (C13_kclient_no_lost_wakeup), clients joined before the pool is destroyed (C13_kclient_joined_first), and NO DEADLOCK: in every reachable state before the owner returns from threadpool_destroy some thread can take a real step (C13_kclient_no_deadlock, _no_hang, _sleepers; needs max >= 1, the guard mtbl_threadpool_init applies; a kernel-checked witness shows a pool of zero workers hangs); plus the abstract pool model TpShare (C13_shared_bound, C13_shared_exclusive, C13_shared_no_lost_wakeup) and the signal-site table regenerated from threadpool.c (C13_signal_sites); and TERMINATION for every number of clients: a potential that every real step decreases and a spurious wake-up increases by at most one, so every schedule takes at most n(128 njobs + 73) + 40 max + 24 real steps plus the spurious wake-ups, and the final state stays reachable (C13_kclient_progress, _steps_bounded, _can_finish)"],
+     "several clients on one pool: the k-client machine MtblModel/TpK.lean (owner, any number of clients each with caller and result handler, shared workers) runs in lockstep with threadpool.c under the deterministic scheduler (tpmulti family: pool, every worker's mailbox, every client's queue / counter / flag / deliveries, enabled and sleeping sets compared after every turn; 1-4 clients); proved for every number of clients: the bound (C13_kclient_bound), exclusive hand-out (C13_kclient_exclusive, _one_holder, _held, _idle), the hand-over protocol (C13_kclient_protocol), per-client delivery in dispatch order, exactly once and complete (C13_kclient_order, _complete, _line; unordered: _unordered_once, _unordered_complete, _unordered_places), no lost wake-up with several sleepers on pool->c (C13_kclient_no_lost_wakeup), clients joined before the pool is destroyed (C13_kclient_joined_first), and NO DEADLOCK: in every reachable state before the owner returns from threadpool_destroy some thread can take a real step (C13_kclient_no_deadlock, _no_hang, _sleepers; needs max >= 1, the guard mtbl_threadpool_init applies; a kernel-checked witness shows a pool of zero workers hangs); plus the abstract pool model TpShare (C13_shared_bound, C13_shared_exclusive, C13_shared_no_lost_wakeup) and the signal-site table regenerated from threadpool.c (C13_signal_sites); and TERMINATION for every number of clients: a potential that every real step decreases and a spurious wake-up increases by at most one, so every schedule takes at most n(128 njobs + 73) + 40 max + 24 real steps plus the spurious wake-ups, and the final state stays reachable (C13_kclient_progress, _steps_bounded, _can_finish), and end to end: every maximal schedule ends with the owner back from threadpool_destroy, no worker left, every client returned and delivered all its results in order / each once (C13_kclient_maximal)"],
     generated=["OwnerSites"], variants=["sched", "A"], max_s={"quick": 150, "thorough": 1800})
 
 
